@@ -503,7 +503,7 @@ func (c *Cluster) hCreateTopics(b *Broker, r *Request, act *Action) map[string]a
 		resp := map[string]any{"Name": name, "ErrorCode": int64(0), "NumPartitions": i64(tm, "NumPartitions"), "ReplicationFactor": i64(tm, "ReplicationFactor"), "Configs": []any{}}
 		out = append(out, resp)
 		switch {
-		case act.ErrorCode != 0:
+		case act.ErrorCode != 0 && (!act.ErrorFirstOnly || len(out) == 1):
 			resp["ErrorCode"] = int64(act.ErrorCode)
 		case b.ID != c.controller:
 			resp["ErrorCode"] = int64(ErrNotController)
